@@ -51,7 +51,11 @@ TraceStep ==
                  ant == IF Only = "CONF"
                         THEN (IF e.kind \in {"block", "query"} \/ Modelled(S, e) THEN {"modelled", e.tx.m} ELSE {"unmodelled"})
                         ELSE Antecedents(Only, S, e, T, aux)
-                 drift == IF Only = "CONF" THEN DriftOf(S, e, T) ELSE {}
+                 drift == IF Only = "CONF"
+                          THEN DriftOf(S, e, T)
+                               \* the ghost snapshot list (Props.tla) must equal the stored one on a faithful tree
+                               \cup (IF \E v \in Vs(T) : AuxNext(aux, S, e, T).gsnaps[v] # T.vamm[v].snaps THEN {"gsnaps"} ELSE {})
+                          ELSE {}
                  extra == IF Only = "EXTRA" THEN X_All(S, e, T) ELSE {}
              IN /\ Report(l + 1, e, bad, S, T)
                 /\ \A d \in drift : PrintT(<<"DRIFT", l + 1, e.scn, e.i, d, e.tx.m>>)
